@@ -1684,6 +1684,16 @@ fn scenario_oncommit(ctx: &mut Ctx, seed: u64, free_running: bool) {
     }
 }
 
+/// a scenario must not take the harness down: an unexpected failure of a writer / index call
+/// (an `unwrap` in the scenario) is reported with its message and a replayable case
+fn guarded(ctx: &mut Ctx, case: Value, f: impl FnOnce(&mut Ctx)) {
+    let r = catch_unwind(AssertUnwindSafe(|| f(ctx)));
+    if let Err(e) = r {
+        let msg = e.downcast_ref::<String>().cloned().or_else(|| e.downcast_ref::<&str>().map(|s| s.to_string())).unwrap_or_else(|| "panic".into());
+        ctx.report.violation("oracle", "C05:index-operation-failed", format!("a writer / reader / index operation of the scenario failed or panicked: {}", msg.chars().take(300).collect::<String>()), case);
+    }
+}
+
 pub fn replay(ctx: &mut Ctx, case: &Value) {
     let seed = case["seed"].as_u64().unwrap_or(1);
     match case["scenario"].as_str().unwrap_or("") {
@@ -1712,34 +1722,39 @@ pub fn run(ctx: &mut Ctx) {
         ctx.report.notes.push(format!("extractor sees a weaker discipline in the source text: {d}"));
     }
     if let Some(case) = ctx.replay.clone() {
-        replay(ctx, &case);
+        guarded(ctx, case.clone(), |ctx| replay(ctx, &case));
         return;
     }
-    let n_fp = ctx.budget(10, 120);
+    let n_fp = ctx.budget(12, 120);
     for i in 0..n_fp {
         let seed = ctx.rng.next_u64();
         let steps = 10 + (i as usize % 8);
-        scenario_fingerprint(ctx, seed, i % 3 == 2, steps);
+        let mmap = i % 3 == 2;
+        guarded(ctx, json!({"scenario": "fingerprint", "seed": seed, "mmap": mmap, "steps": steps}), |ctx| scenario_fingerprint(ctx, seed, mmap, steps));
     }
     let n_conc = ctx.budget(16, 150);
     for i in 0..n_conc {
         let seed = ctx.rng.next_u64();
-        scenario_concurrent(ctx, seed, 25, i % 4 == 3);
+        let mmap = i % 4 == 3;
+        guarded(ctx, json!({"scenario": "concurrent", "seed": seed, "reloads": 25, "mmap": mmap}), |ctx| scenario_concurrent(ctx, seed, 25, mmap));
     }
     let n_win = ctx.budget(16, 120);
     for i in 0..n_win {
         let seed = ctx.rng.next_u64();
         let k = ctx.budget(10, 20) as usize;
-        scenario_windows(ctx, seed, k, i % 4 == 3);
+        let mmap = i % 4 == 3;
+        guarded(ctx, json!({"scenario": "windows", "seed": seed, "windows": k, "mmap": mmap}), |ctx| scenario_windows(ctx, seed, k, mmap));
     }
     let n_oc = ctx.budget(10, 100);
     for i in 0..n_oc {
         let seed = ctx.rng.next_u64();
-        scenario_oncommit(ctx, seed, i % 2 == 1);
+        let free = i % 2 == 1;
+        guarded(ctx, json!({"scenario": "oncommit", "seed": seed, "free_running": free}), |ctx| scenario_oncommit(ctx, seed, free));
     }
     let n_ov = ctx.budget(8, 60);
     for i in 0..n_ov {
         let seed = ctx.rng.next_u64();
-        scenario_overlap(ctx, seed, i % 4 == 3);
+        let mmap = i % 4 == 3;
+        guarded(ctx, json!({"scenario": "overlap", "seed": seed, "mmap": mmap}), |ctx| scenario_overlap(ctx, seed, mmap));
     }
 }
